@@ -23,10 +23,12 @@ class Mat:
 
 
 class View:
-    def __init__(self, base, rows, cols):
-        self.base, self.rows, self.cols = base, list(rows), list(cols)
+    def __init__(self, base, rows, cols, elem=False):
+        self.base, self.rows, self.cols, self.elem = base, list(rows), list(cols), elem
 
     def value(self):
+        if self.elem:
+            return self.base.d[self.rows[0]][self.cols[0]]
         return sp.Matrix(len(self.rows), len(self.cols), lambda i, j: self.base.d[self.rows[i]][self.cols[j]])
 
     def assign(self, m):
@@ -43,8 +45,8 @@ class View:
             for j, c in enumerate(self.cols):
                 self.base.d[r][c] = m[i, j]
 
-    def sub(self, rows, cols):
-        return View(self.base, [self.rows[i] for i in rows], [self.cols[j] for j in cols])
+    def sub(self, rows, cols, elem=False):
+        return View(self.base, [self.rows[i] for i in rows], [self.cols[j] for j in cols], elem)
 
 
 class Obj:
@@ -174,7 +176,10 @@ class Dense:
                     env[d["decl"]] = Mat(sh[0], sh[1], data=[list(r) for r in m.tolist()])
                 else:
                     v = self.val(v)
-                    env[d["decl"]] = self.scalar(v) if isinstance(v, sp.MatrixBase) and v.shape == (1, 1) else v
+                    if isinstance(v, sp.MatrixBase) and "Eigen::Matrix<" in t:
+                        env[d["decl"]] = Mat(v.shape[0], v.shape[1], data=[list(r) for r in v.tolist()])     # dynamic-size object of known size
+                    else:
+                        env[d["decl"]] = self.scalar(v) if isinstance(v, sp.MatrixBase) and v.shape == (1, 1) else v
         elif k == "if":
             c = self.ev(s["cond"], env, this)
             c = self.val(c)
@@ -255,6 +260,15 @@ class Dense:
                 return sp.sqrt(self.scalar(args[0]))
             if n["callee"] in ("std::abs", "std::fabs", "abs", "fabs"):
                 return sp.Abs(self.scalar(args[0]))
+            if n["callee"].startswith("Eigen::") and short in ("Zero", "Identity", "Ones"):
+                sh = fixed_shape(n["callee"]) or fixed_shape(n.get("type"))
+                if sh is None and re.search(r"Eigen::Matrix<double, -1, 1", n["callee"]) and len(args) == 1:
+                    sh = (int(self.scalar(args[0])), 1)
+                if sh is None and re.search(r"Eigen::Matrix<double, -1, -1", n["callee"]) and len(args) == 2:
+                    sh = (int(self.scalar(args[0])), int(self.scalar(args[1])))
+                if sh is None:
+                    raise AnalysisBroken("dense: %s with a size that is not a constant" % n["callee"][-60:])
+                return sp.zeros(*sh) if short == "Zero" else sp.ones(*sh) if short == "Ones" else sp.eye(sh[0])
             fs = [f for f in self.F.find(n["callee"]) if len(f.j["params"]) == len(args) and f.j.get("body")]
             if len(fs) == 1:
                 return self.call_function(fs[0], None, [self.ev(a, env, this) for a in n["args"]])
@@ -385,17 +399,17 @@ class Dense:
                 m = self.val(v)
                 return m[idx[0], idx[1]] if len(idx) == 2 else (m[idx[0]] if 1 in m.shape else None)
             if len(idx) == 2:
-                return v.sub([idx[0]], [idx[1]])
+                return v.sub([idx[0]], [idx[1]], True)
             if len(v.cols) == 1:
-                return v.sub([idx[0]], [0])
+                return v.sub([idx[0]], [0], True)
             if len(v.rows) == 1:
-                return v.sub([0], [idx[0]])
+                return v.sub([0], [idx[0]], True)
             raise AnalysisBroken("dense: single index into a matrix")
         if short in ("x", "y", "z", "w"):
             i = "xyzw".index(short)
             v = self.whole(o)
             if isinstance(v, View):
-                return v.sub([i], [0]) if len(v.cols) == 1 else v.sub([0], [i])
+                return v.sub([i], [0], True) if len(v.cols) == 1 else v.sub([0], [i], True)
             m = self.val(v)
             return m[i]
         if short in ("segment", "head", "tail", "col", "row", "leftCols", "rightCols", "topRows", "bottomRows", "block"):
